@@ -143,6 +143,10 @@ func (vc *VC) generateOnce() {
 				if _, ok := vc.C.Ghosts["Resp_written"]; ok {
 					m := vc.getMem(st, "G:Resp_written", "(Array Val Bool)")
 					vc.sc.Assume("true", Not(sx("select", m, params[i])))
+					if _, ok := vc.C.Ghosts["Resp_error"]; ok {
+						me := vc.getMem(st, "G:Resp_error", "(Array Val Bool)")
+						vc.sc.Assume("true", Not(sx("select", me, params[i])))
+					}
 					vc.Assumed["default entry condition: no response written yet on "+p.Name()] = true
 				}
 			}
@@ -205,6 +209,18 @@ func (vc *VC) generateOnce() {
 			g := penv.boolTerm(cl.Expr)
 			ob := &Oblig{Name: vc.rootKey + "/post:" + cl.Label, Kind: "post", Label: cl.Label, Func: vc.rootKey, InFunc: vc.rootKey, Detail: cl.Src}
 			vc.sc.Oblig(out.reach, g, ob)
+		}
+		if vc.opts.Cover {
+			// vacuity guard: the antecedent of every conditional postcondition is reachable at a return
+			for _, cl := range ct.Ensures {
+				if cl.Defines || cl.Expr.Op != "binary" || cl.Expr.Name != "==>" || cl.NoCover {
+					continue
+				}
+				a := penv.boolTerm(cl.Expr.Args[0])
+				ob := &Oblig{Name: vc.rootKey + "/cover:" + cl.Label, Kind: "cover", Label: cl.Label, Func: vc.rootKey, InFunc: vc.rootKey, Cover: true, Detail: "reachable: " + cl.Expr.Args[0].String()}
+				vc.sc.Oblig(out.reach, a, ob)
+			}
+			penv.err = nil
 		}
 		vc.reportEnvErrors(penv)
 	}
